@@ -16,7 +16,7 @@ let () = each_line (fun l ->
   let t = toks_of_line o in
   match peek t with
   | Some "EXC" -> "FAIL exception " ^ o
-  | Some "CRASH" -> "FAIL crash " ^ o
+  | Some "CRASH" -> (if String.length o >= 12 && String.sub o 0 12 = "CRASH rc=-14" then "FAIL hang " else "FAIL crash ") ^ o
   | Some "HANG" -> "FAIL hang " ^ o
   | _ ->
     let truth = wincl_dec a b in
